@@ -6,6 +6,8 @@
 unsigned long nondet_u64(void);
 _Bool nondet_bool(void);
 
+typedef struct TaskQ_Slot QSlot_t;
+QSlot_t *g_qslots; unsigned long g_qcap, g_qn, g_moved; _Bool g_move_ok;
 unsigned long g_size;        /* tasks.size() */
 unsigned long g_uninvoked;   /* tasks in the vector whose reclaimer has not run yet */
 unsigned long g_lost;        /* tasks destroyed (clear / vector destructor) while their reclaimer had not run */
@@ -15,7 +17,8 @@ unsigned long g_lwm;         /* low water mark observed by the current reclaim_s
 unsigned long g_cur_epoch;   /* lowest_epoch of the task most recently handed out by operator[] */
 unsigned long g_cur_index;
 unsigned long g_invocations;
-static void vf_havoc_ghosts(void) { g_size = nondet_u64(); g_uninvoked = nondet_u64(); g_lost = 0; g_stop_seen = 0; g_invocations = 0; }
+static void vf_havoc_consume(void);
+static void vf_havoc_ghosts(void) { g_size = nondet_u64(); g_uninvoked = nondet_u64(); g_lost = 0; g_stop_seen = 0; g_invocations = 0; vf_havoc_consume(); }
 
 /* ---- std::vector<ReclaimTask> abstraction ---- */
 void TaskVec_ctor_0(struct TaskVec *v) __CPROVER_assigns(g_size, g_uninvoked) __CPROVER_ensures(g_size == 0 && g_uninvoked == 0);
@@ -32,7 +35,13 @@ int vf_usleep(unsigned int us) __CPROVER_assigns() __CPROVER_ensures(1);
  *      queue's try_pop_n with a lambda -- the queue side is C01's) ---- */
 _Bool GC_consume_reclaim_task(struct GC *self, unsigned long batch, struct TaskVec *tasks)
 __CPROVER_requires(!g_stop_seen)          /* the collector never polls the queue again after it consumed the stop marker */
+#ifdef VF_ENFORCE_GC_consume_reclaim_task
+__CPROVER_requires(__CPROVER_is_fresh(self, sizeof(*self)) && __CPROVER_is_fresh(tasks, sizeof(*tasks)) && g_size < (1UL << 39) && g_move_ok)
+__CPROVER_assigns(g_size, g_uninvoked, g_stop_seen, g_qn, g_moved, g_move_ok)
+__CPROVER_ensures(g_move_ok)              /* what was appended are the popped tasks before the marker, in pop order, each once (lambda contract) */
+#else
 __CPROVER_assigns(g_size, g_uninvoked, g_stop_seen)
+#endif
 __CPROVER_ensures(g_size >= __CPROVER_old(g_size) && g_size - __CPROVER_old(g_size) <= batch)
 __CPROVER_ensures(g_uninvoked - __CPROVER_old(g_uninvoked) == g_size - __CPROVER_old(g_size))
 __CPROVER_ensures(__CPROVER_return_value == !g_stop_seen)
@@ -87,5 +96,48 @@ __CPROVER_ensures(g_invocations == __CPROVER_old(g_invocations) + 1 && g_uninvok
 //@  __CPROVER_loop_invariant(g_invocations == __CPROVER_loop_entry(g_invocations) + @l1:reclaimed@)
 //@  __CPROVER_loop_invariant(@p1:index@ == __CPROVER_loop_entry(@p1:index@) + @l1:reclaimed@)
 //@  __CPROVER_decreases(g_size - @p1:index@)
+//@end
+
+/* ---- consume_reclaim_task and its real lambda (jobs C10.consume.*, VF_CONSUME): the batch the queue hands over is walked with the
+ * queue's real iterator over a typed slot array; every task before the stop marker (lowest_epoch == UINT64_MAX) is moved into the
+ * task list exactly once, in pop order; the marker itself is never moved, it clears `running` and ends the walk. */
+#include <stdlib.h>
+#define QS_AT(p, k) (__CPROVER_same_object(p, g_qslots) && __CPROVER_POINTER_OFFSET(p) % sizeof(QSlot_t) == 0 && __CPROVER_POINTER_OFFSET(p) / sizeof(QSlot_t) == (k))
+#ifdef VF_CONSUME
+typedef struct lambda_garbage_collector_consume_reclaim_task_1 ConsL_t;
+#define LCONS GC_consume_reclaim_task_lambda_garbage_collector_consume_reclaim_task_1_op_call
+static void vf_havoc_consume(void) {
+  g_qcap = nondet_u64(); __CPROVER_assume(g_qcap < (1UL << 16));
+  g_qslots = malloc((g_qcap + 1) * sizeof(QSlot_t)); __CPROVER_assume(g_qslots != 0);
+  g_qn = nondet_u64(); g_moved = 0; g_move_ok = 1;
+}
+struct GC_ReclaimTask *TaskVec_emplace_back(struct TaskVec *v, struct GC_ReclaimTask *t) {
+  if (!(t == &g_qslots[g_moved].value && t->lowest_epoch != 0xFFFFFFFFFFFFFFFFUL)) g_move_ok = 0;       /* next item of the batch, never the marker */
+  __CPROVER_assume(g_moved < (1UL << 30) && g_size < (1UL << 40)); g_moved++; g_size++; g_uninvoked++;
+  return t;
+}
+void LCONS(ConsL_t *c, struct TaskQ_Iterator iter, struct TaskQ_Iterator end)
+__CPROVER_requires(__CPROVER_is_fresh(c, sizeof(*c)) && __CPROVER_is_fresh(c->cap_running, sizeof(_Bool)) && g_qn <= g_qcap && g_moved == 0 && g_move_ok && g_size < (1UL << 39))
+__CPROVER_requires(__CPROVER_pointer_equals(iter._slot, g_qslots) && __CPROVER_pointer_equals(end._slot, g_qslots + g_qn))
+__CPROVER_assigns(*c->cap_running, g_moved, g_move_ok, g_size, g_uninvoked)
+__CPROVER_ensures(g_move_ok && g_moved <= g_qn && g_size == __CPROVER_old(g_size) + g_moved && g_uninvoked == __CPROVER_old(g_uninvoked) + g_moved)
+__CPROVER_ensures(g_moved == g_qn ? *c->cap_running == __CPROVER_old(*c->cap_running) : (!*c->cap_running && g_qslots[g_moved].value.lowest_epoch == 0xFFFFFFFFFFFFFFFFUL))
+;
+size_t TaskQ_try_pop_n__0_0_lambda_garbage_collector_consume_reclaim_task_1_void(struct TaskQ *q, ConsL_t *cb, unsigned long num) {
+  g_qn = nondet_u64(); __CPROVER_assume(g_qn <= num && g_qn <= g_qcap); g_moved = 0;
+  struct TaskQ_Iterator b, e; b._slot = g_qslots; e._slot = g_qslots + g_qn;
+  LCONS(cb, b, e);
+  if (!*cb->cap_running) g_stop_seen = 1;
+  return g_qn;
+}
+#else
+static void vf_havoc_consume(void) { }
+#endif
+//@loop GC_consume_reclaim_task_lambda_garbage_collector_consume_reclaim_task_1_op_call 1
+//@  VF_REBASE(@p1:iter@._slot, g_qslots)
+//@  __CPROVER_assigns(@p1:iter@._slot, g_moved, g_move_ok, g_size, g_uninvoked)
+//@  __CPROVER_loop_invariant(g_moved <= g_qn && QS_AT(@p1:iter@._slot, g_moved) && QS_AT(@p2:end@._slot, g_qn) && g_move_ok && g_size == __CPROVER_loop_entry(g_size) + g_moved && g_uninvoked == __CPROVER_loop_entry(g_uninvoked) + g_moved)
+//@  __CPROVER_loop_invariant(*self->cap_running == __CPROVER_loop_entry(*self->cap_running))
+//@  __CPROVER_decreases(g_qn - g_moved)
 //@end
 #endif
